@@ -46,14 +46,14 @@ def aloneVerdict (fx : Fixes) (r : Rule) (d : Doc) : Option Bool := verdict { sc
 /-- V3: reordering two selections changes the verdict of the unfixed `VariablesInAllowedPositionChecker`
     (`perm_selections` is FALSE of today's tree); with fix V3 both orders are rejected -/
 theorem perm_selections_refuted_unfixed :
-    aloneVerdict {} .variablesInAllowedPosition v3a = some true ∧ aloneVerdict {} .variablesInAllowedPosition v3b = some false ∧
+    aloneVerdict Fixes.unfixed .variablesInAllowedPosition v3a = some true ∧ aloneVerdict Fixes.unfixed .variablesInAllowedPosition v3b = some false ∧
     aloneVerdict Fixes.all .variablesInAllowedPosition v3a = some false ∧
     aloneVerdict Fixes.all .variablesInAllowedPosition v3b = some false := by decide +kernel
 
 /-- V4: reordering definitions changes the verdict of the unfixed `NoUnusedVariablesChecker`
     (`perm_definitions` is FALSE of today's tree); with fix V4 both orders are accepted -/
 theorem perm_definitions_refuted_unfixed :
-    aloneVerdict {} .noUnusedVariables v4a = some false ∧ aloneVerdict {} .noUnusedVariables v4b = some true ∧
+    aloneVerdict Fixes.unfixed .noUnusedVariables v4a = some false ∧ aloneVerdict Fixes.unfixed .noUnusedVariables v4b = some true ∧
     aloneVerdict Fixes.all .noUnusedVariables v4a = some true ∧
     aloneVerdict Fixes.all .noUnusedVariables v4b = some true := by decide +kernel
 
